@@ -115,13 +115,19 @@ def main(argv):
         print(f"unknown property {pid}")
         return 3
     chk = load_check(pid)
+    from . import suitemon
+    suite_only = False
     if a.replay:
         with open(a.replay) as f:
             rp = json.load(f)
-        spec = chk.replay_spec(rp["case"])
-        specs = [spec]
+        if isinstance(rp.get("case"), dict) and "suite_test" in rp["case"]:
+            specs, suite_only = [{"_suite": True, "only": rp["case"]["suite_test"]}], True
+        else:
+            specs = [chk.replay_spec(rp["case"])]
     else:
         specs = chk.shards(a.tier, a.seed)
+        if pid in suitemon.SUITE_PIDS:
+            specs = specs + [{"_suite": True}]
     t0 = time.time()
     budget = chk.shard_timeout(a.tier)
     results, errors, workdir, wall = _run_shards(pid, specs, a.tier, budget)
@@ -132,7 +138,31 @@ def main(argv):
         return 3
     timeouts = sum(1 for r in results if r and r.get("_timeout"))
     results = [r for r in results if r and not r.get("_timeout")]
-    out = chk.conclude(results, a.tier, a.seed)
+    suite = [r for r in results if r.get("_suite")]
+    results = [r for r in results if not r.get("_suite")]
+    if suite_only:
+        out = {"violations": [], "coverage": {}, "inconclusive": [], "assumptions": []}
+    else:
+        out = chk.conclude(results, a.tier, a.seed)
+    for rec in suite:
+        # the repository's own tests as one more workload (vmon/suitemon.py): only this property's monitors count
+        for v in rec["viol"]:
+            if v["pid"] == pid:
+                out["violations"].append({"kind": v["kind"], "detail": v["detail"], "facts": {"workload": "suite"},
+                                          "case": {"suite_test": v["test"]}, "case_id": common.case_hash([v["test"], v["kind"]])})
+        cnt = {k: n for k, n in rec["counters"].items() if k.startswith(pid.lower() + "_") or k.startswith("tests_")}
+        out["coverage"]["suite_under_monitors"] = {"counters": cnt, "suite_exit": rec.get("suite_rc"), "wall_s": rec.get("wall_s"),
+                                                   "rule": "the repository's pinned tests run once with this property's context-free "
+                                                           "monitors attached to the classes (record-only)"}
+        if not suite_only:
+            key, floor = suitemon.FLOORS[pid]
+            if rec.get("errors") or rec["counters"].get("monitor_errors"):
+                out.setdefault("inconclusive", []).append(f"suite monitors failed: {(rec.get('errors') or ['monitor_errors'])[0][:300]}")
+            elif rec.get("suite_rc") != 0:
+                out.setdefault("inconclusive", []).append(f"the repository's own tests do not pass on this tree (pytest exit {rec.get('suite_rc')}): "
+                                                          f"{rec.get('tail', '')[-200:]!r}")
+            elif rec["counters"].get(key, 0) < floor:
+                out.setdefault("inconclusive", []).append(f"suite monitor {key}={rec['counters'].get(key, 0)} < {floor}")
     # out: dict(violations=[{kind, detail, case}], coverage={...}, inconclusive=[...], assumptions=[...], level=...)
     kf = known.load()
     unknown, known_hits = [], {}
